@@ -58,6 +58,9 @@ def gen_case(rng, idx, tier):
     else:
         spec = D.gen(rng, tier, cones='L', ints='force', max_cvx=2)
         spec['mode'] = 'brute'
+    # (ro front end only: a dro model raises when variables follow constraints - the open C09 finding)
+    if rng.random() < (0.4 if spec['mode'] == 'brute' else 0.1) and spec['front'] == 'ro':
+        spec['prelude'] = int(rng.integers(1 << 30))     # see detmodel._build
     return spec
 
 
